@@ -742,7 +742,7 @@ fn sieve_block_poly(s: &SieveMPQS, pol: &Poly, roots: [&[u32]; 2], st: &mut siev
     for (i, facs) in idxs.into_iter().zip(facss) {
         // Evaluate polynomial
         let (v, mut x) = pol.eval(st.offset + i as i64);
-        debug_assert!((x * x) % n == Uint::cast_from(Int::cast_from(*n) + Int::cast_from(v)) % n);
+        debug_assert!(((x % n) * (x % n)) % n == Uint::cast_from(Int::cast_from(*n) + Int::cast_from(v)) % n);
         let Some(((p, q), factors)) = fbase::cofactor(s.fbase, &v, &facs, maxlarge, s.use_double)
         else {
             continue;
